@@ -812,9 +812,7 @@ fn witness_unordered() -> (Option<u64>, Option<u64>, String) {
     rig.wb().submit_write_batch(b0);
     rig.wb().submit_write_batch(b1);
     rig.db.make_visible();
-    if std::env::var("CM_DEBUG").is_ok() { eprintln!("unordered: first visible, drops {}", BG_DROPS.load(SeqCst)); }
     rig.return_and_notify(true);
-    if std::env::var("CM_DEBUG").is_ok() { eprintln!("unordered: first notified, drops {}", BG_DROPS.load(SeqCst)); }
     rig.db.make_visible();
     rig.return_and_notify(true);
     // churn the cache until the entry is gone
@@ -990,20 +988,6 @@ fn main() {
     if dbg { eprintln!("f2..."); }
     let (f2_ord, f2_want, f2_term) = witness_f2::<OrdSet>(500);
     if dbg { eprintln!("f2 ordset done {f2_ord}"); }
-    if dbg {
-        let rig = Rig::new(true);
-        let maps = Wide::new(1, &rig.db);
-        let mut b0 = rig.wb().new_write_batch();
-        maps.insert(28, 2, &mut b0);
-        eprintln!("drops before submit {}", BG_DROPS.load(SeqCst));
-        rig.wb().submit_write_batch(b0);
-        rig.db.make_visible();
-        eprintln!("drops after visible {}", BG_DROPS.load(SeqCst));
-        rig.db.let_return();
-        std::thread::sleep(Duration::from_millis(200));
-        eprintln!("drops after return {} state {:?}", BG_DROPS.load(SeqCst), rig.ac_tid.and_then(thread_state));
-        drop(maps); rig.finish(vec![]);
-    }
     let (f2_dash, _, _) = witness_f2::<Arc<DashSet<Elem>>>(500);
     let (f3_got, f3_want, f3_term) = witness_f3();
     let (f3b_got, f3b_want, f3b_term) = witness_f3b();
